@@ -82,6 +82,10 @@ func newC03World(c *Ctx, r *Rng) *c03World {
 	must(err)
 	m["tok1"], m["tok2"], m["tok3"], m["tok5"] = t1.Marshal(), t2.Marshal(), t3.Marshal(), t5[0].Marshal()
 	m["challenge"] = tokens.TokenChallenge{TokenType: 2, IssuerName: "issuer.example", RedemptionNonce: nonce, OriginInfo: []string{"a.example", "b.example"}}.Marshal()
+	// origin lists with empty names (trailing, leading, doubled and lone commas) and single-character names
+	for i, oi := range [][]string{{"a.example", ""}, {"", "b.example"}, {"a.example", "", "b.example"}, {"", ""}, {".", "a."}, {"a", ".", ""}} {
+		m[fmt.Sprintf("challenge-o%d", i)] = tokens.TokenChallenge{TokenType: 2, IssuerName: "issuer.example", RedemptionNonce: nonce, OriginInfo: oi}.Marshal()
+	}
 	m["encap"] = w.env.issuer.NameKey().Marshal()
 	m["inner"] = type3.VerifNewInnerTokenRequest(7, r.Bytes(256), r.Bytes(64)).Marshal()
 	br, _ := batched.NewBasicClient().CreateTokenRequest([]tokens.TokenRequestWithDetails{w.st1.Request(), w.st2.Request(), w.st1.Request()})
@@ -112,7 +116,7 @@ type c03Entry struct {
 
 func c03Entries() []c03Entry {
 	return []c03Entry{
-		{"tokens.UnmarshalTokenChallenge", []string{"challenge"}, func(w *c03World, b []byte) bool { _, err := tokens.UnmarshalTokenChallenge(b); return err == nil }},
+		{"tokens.UnmarshalTokenChallenge", []string{"challenge", "challenge-o0", "challenge-o1", "challenge-o2", "challenge-o3", "challenge-o4", "challenge-o5"}, func(w *c03World, b []byte) bool { _, err := tokens.UnmarshalTokenChallenge(b); return err == nil }},
 		{"type1.UnmarshalPrivateToken", []string{"tok1"}, func(w *c03World, b []byte) bool { _, err := type1.UnmarshalPrivateToken(b); return err == nil }},
 		{"type2.UnmarshalToken", []string{"tok2"}, func(w *c03World, b []byte) bool { _, err := type2.UnmarshalToken(b); return err == nil }},
 		{"type3.UnmarshalToken", []string{"tok3"}, func(w *c03World, b []byte) bool { _, err := type3.UnmarshalToken(b); return err == nil }},
